@@ -2,6 +2,12 @@ NOTES = "Work in progress: properties move from not_applicable to checks as thei
 NA = {}
 TRUST = "trusted: TLC 1.8 + CommunityModules, lib/vf/refcodec.py (independent decoder), harness/mtbl_drv.c logging; exhaustive only within the stated bounds, samples beyond"
 CHECKS = {
+ "C02": {"level": "model_checking", "technique": "TLA+ refinement check of lookups (TLC, every query in the set per file shape) + the same queries on the real reader + TLC trace validation",
+         "text": "For each file shape TLC checks that the implementation-shaped lookup (index seek, block seek, bound predicate) equals the abstract Lookup for every query of the set, and the same queries are issued to the real reader over the real file whose decoded structure instantiated the model.",
+         "note": "query set: all strings up to length 2 (quick) / 3 (thorough) over a six-byte alphabet plus stored keys, neighbours, separators; " + TRUST},
+ "C11": {"level": "model_checking", "technique": "TLA+ format generator (MC_Foreign: TLC exhaustive on a small table, -simulate beyond) + independent encoder + real reader + TLC trace validation; reader model state-graph replay on foreign files",
+         "text": "TLC enumerates legal encodings of a logical table (partition, restart sets, sharing, separators, versions, compression, prefix) and checks the reader model reads them; simulated structures are materialised by an independent encoder and read by the real reader, every result validated against the abstract table.",
+         "note": "the > 4 GiB restart-array branch is not covered; non-canonical varints excluded as the property says; " + TRUST},
  "C01": {"level": "model_checking", "technique": "TLA+ model of the writer rules (TLC, bounded exhaustive) + TLC -simulate behaviours and random tables replayed on the real writer/reader/mtbl_dump + TLC trace validation against the abstract spec",
          "text": "TLC checks for all bounded add sequences that the writer's construction rules lose nothing; behaviours of that model and byte-level random tables are written by the real writer under all configurations and every reader/mtbl_dump result is validated by TLC against the abstract table.",
          "note": TRUST},
